@@ -69,7 +69,18 @@ lg = jnp.concatenate(tuple(jnp.where(m, d.logits, -jnp.inf) for d, m in zip(self
     for p in live(s.paths(b, "ActionLayer", "__call__")):
         gate = [(t, v) for t, v in p.conds if isinstance(t, tuple) and t[0] == "boolop"]
         if len(gate) != 1:
-            raise AnalysisError("ActionLayer.__call__: expected one composite mask gate")
+            # a path that does not go through the composite gate: it may only hand back the unmasked distribution when it KNOWS there
+            # is no mask (a test on action_mask among its conditions); otherwise it ignores a mask that may be present
+            mask_tests = [(t_, v_) for t_, v_ in p.conds if ("param", "action_mask") in set(walk(t_))]
+            knows_none = any(isinstance(t_, tuple) and t_[0] == "cmp" and t_[2] == ("param", "action_mask") and t_[3] == NONE
+                             and ((t_[1] == "Is" and v_) or (t_[1] == "IsNot" and not v_)) for t_, v_ in mask_tests)
+            uses_mask = ("param", "action_mask") in set(walk(p.ret))
+            s.ob("C16.2", "ActionLayer.__call__[path without the mask gate]", knows_none or uses_mask,
+                 "every path either applies the mask or has established that action_mask is None", loc, key="mask-ignored-path",
+                 detail=f"conditions: {[(show(t_, maxlen=60), v_) for t_, v_ in p.conds]}; returns {show(p.ret, maxlen=120)}",
+                 necessary_for="neither sampling nor the mode ever returns a masked action, for every policy configuration (head depth included)")
+            n_plain += 1
+            continue
         t, v = gate[0]
         want_gate = s.ref(b, "action_mask is not None and isinstance(dist, AbstractMaskableDistribution)",
                           {"action_mask": ("param", "action_mask"), "AbstractMaskableDistribution": ("global", P.cls("AbstractMaskableDistribution").qualname),
